@@ -860,6 +860,12 @@ def _adopt(ret_client="\t\treturn true\n", test="v.adoptCallerRevocation(verifie
     return [(V, _SR_TAIL, "\tif " + test + " {\n\t\treturn nil\n\t}\n" + _B_OK + "\tv.revocationCodeSigningValidator = builtin\n\treturn nil\n}\n\n" +
              "func (v *verifier) adoptCallerRevocation(given VerifierOptions) bool {\n\tif given.RevocationCodeSigningValidator != nil {\n\t\tv.revocationCodeSigningValidator = given.RevocationCodeSigningValidator\n\t\treturn true\n\t}\n" +
              "\tif given.RevocationClient != nil {\n\t\tv.revocationClient = given.RevocationClient\n" + ret_client + "\t}\n\treturn false\n}\n")]
+def _void_setters(client_arm="\tif verifierOptions.RevocationClient != nil {\n\t\tv.useClient(verifierOptions.RevocationClient)\n\t\treturn nil\n\t}\n", client_body="\tv.revocationClient = legacy\n", first=True):
+    val_arm = "\tif verifierOptions.RevocationCodeSigningValidator != nil {\n\t\tv.useValidator(verifierOptions.RevocationCodeSigningValidator)\n\t\treturn nil\n\t}\n"
+    arms = val_arm + client_arm if first else client_arm + val_arm
+    return [(V, _SR_TAIL, arms + _B_OK + "\tv.revocationCodeSigningValidator = builtin\n\treturn nil\n}\n\n" +
+             "func (v *verifier) useValidator(chosen revocation.Validator) {\n\tv.revocationCodeSigningValidator = chosen\n}\n\n" +
+             "func (v *verifier) useClient(legacy revocation.Revocation) {\n" + client_body + "}\n")]
 _WHY_H = 'a success exit of the setter that runs through the helper call is a success exit of the helper, and every success exit of the helper has stored a non-nil validator into the verifier it was handed'
 VARIANTS += [
  dict(name='benign-setter-default-stored-by-helper-method-tail-call', expect='silent', edits=_setter_with_method(), why=_WHY_H),
@@ -918,4 +924,13 @@ VARIANTS += [
  dict(name='setter-choice-helper-handed-partial-options', expect='flagged(constructor/options-forwarded)',
       edits=_choose(arg='VerifierOptions{RevocationCodeSigningValidator: verifierOptions.RevocationCodeSigningValidator}')),
  dict(name='setter-choice-helper-handed-empty-options', expect='flagged(constructor/)', edits=_choose(arg='VerifierOptions{}')),
+ dict(name='setter-bool-helper-false-although-client-adopted', expect='flagged(constructor/default-yields)', edits=_adopt(ret_client="\t\treturn false\n")),
+ dict(name='setter-bool-helper-handed-empty-options', expect='flagged(constructor/)', edits=_adopt(test="v.adoptCallerRevocation(VerifierOptions{})")),
+ # the caller's values are stored by setters without a result: the stored parameter is judged at the call
+ dict(name='benign-setter-caller-values-stored-by-void-helpers', expect='silent', edits=_void_setters(),
+      why='the helper stores its parameter; at each call the argument was found non-nil'),
+ dict(name='setter-void-helper-called-with-possibly-nil-client', expect='flagged(constructor/)',
+      edits=_void_setters(client_arm="\tif verifierOptions.RevocationCodeSigningValidator == nil {\n\t\tv.useClient(verifierOptions.RevocationClient)\n\t\treturn nil\n\t}\n", first=False)),
+ dict(name='setter-void-helper-stores-only-sometimes', expect='flagged(constructor/)',
+      edits=_void_setters(client_body="\tif v.pluginManager != nil {\n\t\tv.revocationClient = legacy\n\t}\n")),
 ]
